@@ -304,7 +304,8 @@ PROPS["C18"]["claim"] = ("Record layer only, for ANY cipher (encrypt/decrypt abs
                          "the reader (LengthPrefixedFramer::try_read_msg) cuts records exactly at their announced length, consumes them whole and in order, hands each to the cipher exactly once, and leaves an incomplete record untouched "
                          "(so the outcome does not depend on read boundaries). "
                          "CURVE data cipher (unit nonce, feature curve): counters start where they are and every encrypt hands the current send counter to the primitive exactly once before advancing it by one (nonces of one direction of one session are pairwise distinct); "
-                         "decrypt advances the receive counter only for a record that authenticates (a forged / replayed / reordered record cannot move it) and refuses a record shorter than a MAC before any crypto; encrypt uses the encode key, decrypt the decode key. "
+                         "decrypt advances the receive counter only for a record that authenticates (a forged / replayed / reordered record cannot move it) and refuses a record shorter than a MAC before any crypto; encrypt uses the encode key, decrypt the decode key; a fresh cipher starts both counters at 1 with the keys it is given, and the hand-over from the handshake "
+                         "(CurveHandshake::into_data_cipher) seals with the TRANSMIT key and opens with the RECEIVE key of the key exchange -- never with one shared key for both directions (which would let a record reflected to its sender authenticate). "
                          "Secrecy, tamper detection by the AEAD itself and cross-session nonce/key freshness are cryptographic and not decided here.")
 
 PROPS["C13"] = {
